@@ -60,6 +60,7 @@ type thread struct {
 	done    bool
 	granted int    // case index chosen for a select
 	hash    uint64 // hash of this thread's causal past (happens-before)
+	expect  string // if set: the thread's next operation must be enabled when it parks
 }
 
 // Point is one scheduling decision of an execution.
@@ -345,6 +346,18 @@ func WaitPoint(kind OpKind, what string, cond func() bool) {
 	}
 	t.kind, t.cond, t.what = kind, cond, what
 	s.park(t)
+}
+
+// ExpectEnabled declares that the calling thread's next synchronisation operation must not
+// have to wait (e.g. PollEvent right after HasPendingEvent reported true); if it would, the
+// execution fails with msg.
+//go:norace
+func ExpectEnabled(msg string) {
+	s, t := cur()
+	if s == nil || t == nil {
+		return
+	}
+	t.expect = msg
 }
 
 // Window marks the end of the deterministic prologue: the explorer branches only at
@@ -900,6 +913,12 @@ func Run(prefix []int, maxSteps int, prog func()) Outcome {
 		t.wake <- struct{}{}
 		<-s.yield
 		raceEnable()
+		if t.expect != "" {
+			if !t.done && !s.enabled(t) {
+				s.panicMsg = "expectation failed: " + t.expect + " (" + s.describe(t) + " has to wait)"
+			}
+			t.expect = ""
+		}
 	}
 	out.Points, out.Choices, out.Steps, out.Window, out.Hashes = s.points, s.choices, s.steps, s.window, s.hashes
 	// tear down: release every parked goroutine; hooks become no-ops
